@@ -31,6 +31,11 @@ SPECIALS = [',', '"', ' ', "'", ';', '\t', '""', ', ', ' ,"']
 def cell_text(r, n, latin):
     alpha = isoc.SAFE + ([chr(c) for c in range(0xa1, 0x100)] if latin else [])
     s = ''.join(r.choice(alpha) for _ in range(n))
+    if r.random() < 0.08:
+        return ' ' * n                                   # an all-blank value
+    if n >= 2 and r.random() < 0.15:
+        s = ' ' * r.randrange(1, n) + s[n - 1:] * 1 + s[:0]
+        s = (s + 'x' * n)[:n]                            # leading blanks
     if n >= 3 and r.random() < 0.6:
         k = r.randrange(n - 1)
         sp = r.choice(SPECIALS)[:n - k]
@@ -111,6 +116,12 @@ def _drive(args):
                 if via_cli:
                     p = os.path.join(wd, 'c20-%d-%d.csv' % (os.getpid(), tid))
                     open(p, 'w', newline='').write(text)
+                    kwcfg = {}
+                    if tid % 15 == 0:
+                        # a site configuration file with the packaged content, keys in json sort_keys order
+                        import json
+                        json.dump(cfg, open(p + '.json', 'w'), sort_keys=True)
+                        kwcfg = {'config_file': p + '.json'}
                     if tid % 10 == 5:
                         # CSV text encoding given, IPM encoding left to its default (latin_1) on both commands
                         enc = res['enc'] = 'latin_1'
@@ -121,15 +132,16 @@ def _drive(args):
                         rc = mci_ipm_to_csv.cli_run(in_filename=p + '.ipm', out_filename=p + '.out.csv', out_encoding='utf-8',
                                                     no1014blocking=not blocked)
                     else:
-                        mci_csv_to_ipm.cli_run(in_filename=p, out_filename=p + '.ipm', out_encoding=enc, no1014blocking=not blocked)
+                        mci_csv_to_ipm.cli_run(in_filename=p, out_filename=p + '.ipm', out_encoding=enc, no1014blocking=not blocked, **kwcfg)
                         ipm = open(p + '.ipm', 'rb').read()
                         rc = mci_ipm_to_csv.cli_run(in_filename=p + '.ipm', out_filename=p + '.out.csv', in_encoding=enc,
-                                                    no1014blocking=not blocked)
+                                                    no1014blocking=not blocked, **kwcfg)
                     if rc == -1:
                         raise RuntimeError('mci_ipm_to_csv reported an error')
                     outtext = open(p + '.out.csv', newline='', encoding='utf-8' if tid % 10 == 5 else None).read()
-                    for q in (p, p + '.ipm', p + '.out.csv'):
-                        os.unlink(q)
+                    for q in (p, p + '.ipm', p + '.out.csv', p + '.json'):
+                        if os.path.exists(q):
+                            os.unlink(q)
                 else:
                     f = io.BytesIO()
                     mci_csv_to_ipm.mci_csv_to_ipm(io.StringIO(text, newline=''), f, cfg, out_encoding=enc, no1014blocking=not blocked)
